@@ -64,6 +64,10 @@ func (v *PointerSchema) process(ctx *p.SchemaCtx) {
 	if fn, ok := ctx.Data.(p.DpFactory); ok {
 		val, err := fn()
 		if err != nil {
+			// issues created by the input front ends do not know the schema type. Without it no message can be found
+			if err.Dtype == "" {
+				err.Dtype = subCtx.DType
+			}
 			ctx.AddIssue(subCtx.IssueFromUnknownError(err))
 			return
 		}
